@@ -27,6 +27,9 @@ REVERSE = {   # name: fix commit subject prefix
     'C15-irem-zero-frees-buffer': 'fix: A %= 0 frees the buffer of A',
     'C16-emax-1x1-empty-sparse': 'fix: max/min with a 1x1 sparse matrix without stored entries',
     'C16-spdiag-row-vector': 'fix: spdiag of a sparse row vector',
+    'C20-refused-import-keeps-export': 'fix: refusing a buffer with 0 or more than 2 dimensions',
+    'C07-chol2-stale-patterns': 'fix: kkt_chol2 reuses the sparsity patterns',
+    'C15-iadd-sparse-not-inplace': 'fix: A += B and A -= B with a dense A and a sparse B',
 }
 
 CUSTOM = {
